@@ -1,13 +1,15 @@
 (** * Property C09 — tables regenerated from dd/bdd.py on every run: which
       methods the retry decorator wraps, and the reordering thresholds.
       A change of either in the source changes [Generated/PyConsts.v] and
-      breaks these obligations. *)
+      breaks these obligations.  ([_quantify_vars] is the decorated worker of
+      the public [quantify], which first reads its iterable argument into a
+      set: the retry must not see an exhausted iterator.) *)
 From DD Require Import DecoratedTable.
 Local Open Scope string_scope.
 
 Theorem C09_decorated_methods :
   py_decorated =
-  ["add_expr"; "cofactor"; "compose"; "cube"; "ite"; "quantify"; "reduction"; "rename"; "var"].
+  ["_quantify_vars"; "add_expr"; "cofactor"; "compose"; "cube"; "ite"; "reduction"; "rename"; "var"].
 Proof. exact decorated_table. Qed.
 Print Assumptions C09_decorated_methods.
 
